@@ -28,7 +28,7 @@
 #include "interpose.h"
 
 #define MAXTOK (1 << 22)
-#define MAXARG 32
+#define MAXARG 80
 
 typedef struct {
   int kind; /* 0 int, 1 word, 2 mat, 3 perm, 4 null, 5 alias */
@@ -269,7 +269,7 @@ static void run_line(char *line) {
   const char *id = tok[0], *op = tok[1];
   long live_before = ip_live_count();
   ip_inside = 1;
-  if (parse_args(2) != 0) {
+  if (strcmp(op, "alloc_seq") != 0 && parse_args(2) != 0) {
     ip_inside = 0;
     printf("%s bad-args\n", id);
     return;
@@ -323,6 +323,13 @@ int main(int argc, char **argv) {
       ip_trace = 1;
   }
   tok = (char **)real_malloc(sizeof(char *) * MAXTOK);
+#if __M4RI_ENABLE_MZD_CACHE
+  { /* learn where the static header block lives: the first header handed out is slot 63 */
+    mzd_t *h0 = mzd_init(0, 0);
+    static_hdr_base = (char *)h0 - 63 * sizeof(mzd_t);
+    mzd_free(h0);
+  }
+#endif
   ssize_t n;
   while ((n = getline(&linebuf, &linecap, stdin)) > 0) {
     if (!opt_fork) {
